@@ -38,6 +38,14 @@ func metricKeyHashArray(checksum hash.Hash, key string, array *birch.Array) int 
 	return seen
 }
 
+// hashMetricKey adds one metric's full key to the checksum. Keys are
+// terminated (a BSON key cannot contain a NUL byte), so that two
+// different lists of keys never produce the same byte stream.
+func hashMetricKey(checksum hash.Hash, key string) {
+	_, _ = checksum.Write([]byte(key))
+	_, _ = checksum.Write([]byte{0})
+}
+
 func metricKeyHashValue(checksum hash.Hash, key string, value *birch.Value) int {
 	switch value.Type() {
 	case bsontype.Array:
@@ -45,22 +53,22 @@ func metricKeyHashValue(checksum hash.Hash, key string, value *birch.Value) int 
 	case bsontype.EmbeddedDocument:
 		return metricKeyHashDocument(checksum, key, value.MutableDocument())
 	case bsontype.Boolean:
-		_, _ = checksum.Write([]byte(key))
+		hashMetricKey(checksum, key)
 		return 1
 	case bsontype.Double:
-		_, _ = checksum.Write([]byte(key))
+		hashMetricKey(checksum, key)
 		return 1
 	case bsontype.Int32:
-		_, _ = checksum.Write([]byte(key))
+		hashMetricKey(checksum, key)
 		return 1
 	case bsontype.Int64:
-		_, _ = checksum.Write([]byte(key))
+		hashMetricKey(checksum, key)
 		return 1
 	case bsontype.DateTime:
-		_, _ = checksum.Write([]byte(key))
+		hashMetricKey(checksum, key)
 		return 1
 	case bsontype.Timestamp:
-		_, _ = checksum.Write([]byte(key))
+		hashMetricKey(checksum, key)
 		return 2
 	default:
 		return 0
